@@ -490,19 +490,40 @@ fn read_column_metadata(
                 seen_mask |= COL_META_TOTAL_UNCOMP_SZ;
             }
             7 => {
-                column.total_compressed_size = i64::read_thrift(&mut *prot)?;
+                let size = i64::read_thrift(&mut *prot)?;
+                if size < 0 {
+                    return Err(general_err!(
+                        "Invalid negative total_compressed_size {} in column metadata",
+                        size
+                    ));
+                }
+                column.total_compressed_size = size;
                 seen_mask |= COL_META_TOTAL_COMP_SZ;
             }
             // 8: we don't expose this key value
             9 => {
-                column.data_page_offset = i64::read_thrift(&mut *prot)?;
+                let offset = i64::read_thrift(&mut *prot)?;
+                if offset < 0 {
+                    return Err(general_err!(
+                        "Invalid negative data_page_offset {} in column metadata",
+                        offset
+                    ));
+                }
+                column.data_page_offset = offset;
                 seen_mask |= COL_META_DATA_PAGE_OFFSET;
             }
             10 => {
                 column.index_page_offset = Some(i64::read_thrift(&mut *prot)?);
             }
             11 => {
-                column.dictionary_page_offset = Some(i64::read_thrift(&mut *prot)?);
+                let offset = i64::read_thrift(&mut *prot)?;
+                if offset < 0 {
+                    return Err(general_err!(
+                        "Invalid negative dictionary_page_offset {} in column metadata",
+                        offset
+                    ));
+                }
+                column.dictionary_page_offset = Some(offset);
             }
             12 if !skip_col_stats => {
                 column.statistics =
